@@ -23,11 +23,11 @@ import (
 
 type c36Case struct {
 	Fams     []xFam
-	Format   int  // fmtKind
-	Keep     bool // KeepClassicOnClassicAndNativeHistograms
-	IgnoreNH bool // IgnoreNativeHistograms (protobuf)
-	Created  bool // OpenMetrics _created lines
-	SkipST   bool // OpenMetricsSkipSTSeries (+ StartTimestamp is asked for)
+	Format   int    // fmtKind
+	Keep     bool   // KeepClassicOnClassicAndNativeHistograms
+	IgnoreNH bool   // IgnoreNativeHistograms (protobuf)
+	Created  bool   // OpenMetrics _created lines
+	SkipST   bool   // OpenMetricsSkipSTSeries (+ StartTimestamp is asked for)
 	Perm     uint32 // != 0: bucket lines of text/OpenMetrics payloads are written in a permuted order
 	// DropInf lists histogram metrics (index over all histogram metrics of the payload, in
 	// order) whose le="+Inf" line is removed from a text/OpenMetrics payload; for protobuf the
@@ -37,7 +37,7 @@ type c36Case struct {
 	// with different timestamps / a _created line without timestamp after a timestamped group
 	// (nhcb-timestamp-of-next-series); OpenMetrics bucket exemplars together with keep-classic
 	// (nhcb-keep-classic-exemplar-consumed)
-	Trig   bool `json:",omitempty"`
+	Trig    bool `json:",omitempty"`
 	Avoided int  `json:",omitempty"`
 }
 
@@ -53,7 +53,7 @@ func genC36(t *rapid.T) c36Case {
 		IgnoreNH: rapid.IntRange(0, 2).Draw(t, "ignorenh") == 0,
 		Created:  rapid.Bool().Draw(t, "created"),
 		SkipST:   rapid.Bool().Draw(t, "skipst"),
-		Trig:    rapid.IntRange(0, 7).Draw(t, "trig") == 0,
+		Trig:     rapid.IntRange(0, 7).Draw(t, "trig") == 0,
 	}
 	if rapid.IntRange(0, 2).Draw(t, "perm") == 0 {
 		c.Perm = rapid.Uint32Range(1, 1<<30).Draw(t, "permseed")
@@ -613,5 +613,3 @@ func TestC36(t *testing.T) {
 		"1-5 generated families, mostly classic histograms (1-4 label sets, 0-8 finite bounds, +Inf bucket present/absent/line removed, integer or float counts, bucket exemplars, created timestamps, per-label-set timestamps, bucket lines in permuted order, optional exponential histogram on the same series in protobuf) next to counters/gauges/summaries, encoded by expfmt as text, OpenMetrics or protobuf and parsed with ConvertClassicHistogramsToNHCB, keep-classic on/off; the entry sequence must be the unconverted expansion with every classic group replaced (keep: followed) by one NHCB whose bounds, de-cumulated counts, count, sum, timestamp, start timestamp and exemplars are converted independently from the generated family. Non-trivial: a histogram family with >= 2 label sets or a missing +Inf bucket; distinct by hash of the case.",
 		genC36, runC36)
 }
-
-var _ = rapid.Bool
